@@ -1,4 +1,9 @@
 #!/bin/bash
-# development aid: run a check against a clean scratch clone of /repo (see driver/verif.py VERIF_DEV_*)
+# development aid (never used by the registered commands): run a check against a clean scratch clone of /repo, optionally with a
+# scratch copy of the specifications (VERIF_DEV_SPEC), so that development can go on while a seeded change is applied to /repo itself
+# (see driver/verif.py VERIF_DEV_*).  Everything it creates lives under /tmp; remove /tmp/dev* when done.
+[ -d /tmp/devrepo ] || git clone -q /repo /tmp/devrepo
+mkdir -p /tmp/devharness
 rsync -a --exclude target --exclude Cargo.toml /verif/harness/ /tmp/devharness/
+[ -f /tmp/devharness/Cargo.toml ] || sed 's#"/repo/#"/tmp/devrepo/#g; s#\.\./\.\./repo/#/tmp/devrepo/#g' /verif/harness/Cargo.toml > /tmp/devharness/Cargo.toml
 VERIF_DEV_SPEC=${VERIF_DEV_SPEC:-/verif/spec} VERIF_DEV_HARNESS=/tmp/devharness VERIF_DEV_WORK=/tmp/devwork VERIF_DEV_REPO=/tmp/devrepo python3 /verif/driver/verif.py "$@"
